@@ -128,9 +128,16 @@ func (t *termer) Term(v ssa.Value) string {
 		return t.Term(x.X)
 	case *ssa.MakeInterface:
 		return t.Term(x.X)
+	case *ssa.ChangeInterface:
+		return t.Term(x.X)
 	case *ssa.SliceToArrayPointer:
 		return t.Term(x.X)
 	case *ssa.Slice:
+		if x.High != nil {
+			if k, ok := intConst(x.High); ok && k == 0 {
+				return `""` // empty prefix: only the capacity of the base matters
+			}
+		}
 		base := t.Term(x.X)
 		if x.Low == nil && x.High == nil {
 			return base
@@ -279,6 +286,9 @@ func (t *termer) allocTerm(a *ssa.Alloc, load ssa.Instruction) string {
 	}
 	scan(a, "0")
 	if len(ws) == 0 {
+		if l, ok := constLen(a.Type()); ok {
+			return fmt.Sprintf("zeros(%d)", l)
+		}
 		return t.fail("local object at %s is never written", t.p.Pos(a.Pos()))
 	}
 	// writers into disjoint offsets (fill pattern): all must dominate
@@ -434,6 +444,20 @@ func (t *termer) callTerm(c *ssa.Call, idx int) string {
 			h = strings.TrimSuffix(strings.TrimPrefix(p.fnID(f), "crypto/"), ".New")
 		}
 		return "hkdf-expand-" + h + "[prk=" + t.Term(cm.Args[1]) + ";info=" + t.Term(cm.Args[2]) + "]"
+	case "crypto/aes.NewCipher":
+		return "aes[" + t.Term(cm.Args[0]) + "]"
+	case "crypto/cipher.NewCTR":
+		return "ctr[" + t.Term(cm.Args[0]) + ";iv=" + t.Term(cm.Args[1]) + "]"
+	case "crypto/hmac.New":
+		h := "?"
+		if f, ok := cm.Args[0].(*ssa.Function); ok {
+			h = strings.TrimSuffix(strings.TrimPrefix(p.fnID(f), "crypto/"), ".New")
+		}
+		return "hmac-" + h + "[" + t.Term(cm.Args[1]) + "]"
+	case "(encoding/binary.bigEndian).Uint32":
+		return "be32(" + t.Term(cm.Args[1]) + ")"
+	case "(encoding/binary.bigEndian).Uint16":
+		return "be16(" + t.Term(cm.Args[1]) + ")"
 	case "time.Now":
 		return "now"
 	case "(time.Time).Unix":
@@ -554,6 +578,9 @@ func (t *termer) filledBy(ms *ssa.MakeSlice) string {
 		return parts[0]
 	}
 	if len(parts) == 0 {
+		if k, ok := intConst(ms.Len); ok && k == 0 {
+			return `""`
+		}
 		return "zeros(" + t.scalar(ms.Len) + ")"
 	}
 	return t.fail("make at %s filled %d times", t.p.Pos(ms.Pos()), len(parts))
